@@ -1,13 +1,367 @@
-"""Spec table for the hex namespace (C04) - see spec_bit.py for the conventions. (to be filled)"""
+"""
+Spec table for the hex namespace (C04): one entry per documented data macro (and per overload) of
+/repo/flipjump/stl/hex/{memory,logics,math_basic,math,shifts,cond_jumps,mul,div}.fj, transcribed from the
+`//   formula` comment above its `def` (file:line in `doc`).  The model functions say what the DOCUMENTATION
+promises - they are not derived from the macro bodies.  See spec_bit.py for the conventions.
+
+model(n, v, c, w) -> (updates, branch) | None:  v = current values of the variable operands (reduced to the cells
+the macro uses; a hex cell is one hex digit, little-endian), c = constant operands; None = the documentation does
+not say what happens for these inputs.
+
+Library-internal state (HIDDEN below) is monitored at every SYNC like any other variable:
+  * the add / sub carry ("carry is both input and output, and is saved in the 8th bit in hex.{add/sub}.dst",
+    math_basic.fj:92) - an explicit rw operand of the scalar hex.add / hex.sub and of the *_carry macros;
+  * hex.mul.dst[0] and the 4-bit hex.mul.add_carry_dst (mul.fj:4, :104-106) - explicit operands of the scalar hex.add_mul;
+  * hex.tables.res, hex.tables.ret, hex.mul.ret and the or/and/cmp table jumpers ("expected to be 0 after the jump").
+A macro whose documentation does not name one of these must leave it exactly as it was (that is the "no stale
+carry / table state" half of the property); when such a state is already nonzero before a macro that does not
+name it, nothing is promised (harness: unspecified).
+"""
 
 from __future__ import annotations
 
-from typing import List
+from typing import Any, Dict, List, Optional, Tuple
 
 from fjverif.stlmon.harness import Operand as O
-from fjverif.stlmon.harness import Spec
+from fjverif.stlmon.harness import Spec, Var, boundary_value
+
+R = Optional[Tuple[Dict[str, int], Optional[str]]]
+
+HIDDEN: List[Var] = [
+    Var('add_carry', 'field', 1, label='hex.add.dst', bit_offset=8, hidden=True),
+    Var('sub_carry', 'field', 1, label='hex.sub.dst', bit_offset=8, hidden=True),
+    Var('mul_dst', 'field', 4, label='hex.mul.dst', bit_offset=0, hidden=True),
+    Var('mul_carry', 'field', 4, label='hex.mul.add_carry_dst', bit_offset=0, hidden=True),
+    Var('tables_res', 'hex', 1, label='hex.tables.res', hidden=True),
+    Var('tables_ret', 'field', 0, label='hex.tables.ret', hidden=True),
+    Var('mul_ret', 'field', 0, label='hex.mul.ret', hidden=True),
+    Var('or_dst', 'field', 0, label='hex.or.dst', hidden=True),
+    Var('and_dst', 'field', 0, label='hex.and.dst', hidden=True),
+    Var('cmp_dst', 'field', 0, label='hex.cmp.dst', hidden=True),
+]
+
+
+def H(n: int) -> int:
+    """mask of n hex digits."""
+    return (1 << (4 * n)) - 1
+
+
+def signed(x: int, digits: int) -> int:
+    bits = 4 * digits
+    return x - (1 << bits) if x >> (bits - 1) else x
+
+
+def popcount(x: int) -> int:
+    return bin(x).count('1')
+
+
+def small_n(n: int) -> int:
+    """((#(n*4))+3)/4 - math_basic.fj:82."""
+    return ((n * 4).bit_length() + 3) // 4
+
+
+SMALL_N = '((n*4).bit_length()+3)//4'
+
+
+# ------------------------------------------------------------------------------------------------ constant generators
+def digit(rng, n, w):  # type: ignore[no-untyped-def]
+    return rng.randrange(16)
+
+
+def vec_const(rng, n, w):  # type: ignore[no-untyped-def]
+    """a constant for a hex[:n] formula; sometimes wider than n digits (the formula is mod 16^n)."""
+    return boundary_value(rng, 4 * n + (4 if rng.random() < 0.15 else 0))
+
+
+def positive_below_16n(rng, n, w):  # type: ignore[no-untyped-def]
+    return max(1, boundary_value(rng, 4 * n))
+
+
+def times_le_n(rng, n, w):  # type: ignore[no-untyped-def]
+    return rng.randrange(0, n + 1)
+
+
+def one_to_n(rng, n, w):  # type: ignore[no-untyped-def]
+    return rng.randrange(1, n + 1)
+
+
+def src_n_le_n(rng, n, w):  # type: ignore[no-untyped-def]
+    return 0 if rng.random() < 0.08 else rng.randrange(1, n + 1)
+
+
+def shift_fitting(key):  # type: ignore[no-untyped-def]
+    def gen(rng, n, w, consts):  # type: ignore[no-untyped-def]
+        return rng.randrange(0, n - consts[key] + 1)
+    return gen
+
+
+def const_of_n_const(rng, n, w, consts):  # type: ignore[no-untyped-def]
+    return boundary_value(rng, 4 * consts['n_const'])
+
+
+def flags16(rng, n, w):  # type: ignore[no-untyped-def]
+    return rng.choice([0xfffe, 0xff00, 0, 0xffff, 1, 0x8000]) if rng.random() < 0.3 else rng.getrandbits(16)
+
+
+def nb_near_n(rng, n, w):  # type: ignore[no-untyped-def]
+    return rng.randrange(1, n + 2)
+
+
+def rem_opt_values(rng, n, w):  # type: ignore[no-untyped-def]
+    return rng.choice([0, 0, 0, 1, 1, 1, 2, 2, 2, 3, -1, 7])
+
+
+# ------------------------------------------------------------------------------------------------ models
+def up(**kw: int) -> R:
+    return kw, None
+
+
+def cmp3(a: int, b: int) -> str:
+    return 'lt' if a < b else 'eq' if a == b else 'gt'
+
+
+def add_scalar(n: int, v: Dict[str, int], c: Dict[str, int], w: int) -> R:
+    t = v['dst'] + v['src'] + v['carry']
+    return up(dst=t & 15, carry=t >> 4)
+
+
+def sub_scalar(n: int, v: Dict[str, int], c: Dict[str, int], w: int) -> R:
+    t = v['dst'] - v['src'] - v['carry']
+    return up(dst=t & 15, carry=1 if t < 0 else 0)
+
+
+def add_mul_scalar(n: int, v: Dict[str, int], c: Dict[str, int], w: int) -> R:
+    t = v['res'] + v['x'] * v['mul_dst'] + v['mul_carry']       # {add_carry_dst : res} = ...
+    return up(res=t & 15, mul_carry=t >> 4)
+
+
+def sign_extend(n: int, v: Dict[str, int], c: Dict[str, int], w: int) -> R:
+    s = c['signed_n']
+    return up(hex=signed(v['hex'] & H(s), s) & H(n))
+
+
+def div_model(n: int, v: Dict[str, int], c: Dict[str, int], w: int) -> R:
+    a, b = v['a'], v['b']
+    if b == 0:
+        return {}, 'div0'
+    return up(q=(a // b) & H(n), r=(a % b) & H(c['nb']))
+
+
+def idiv_model(n: int, v: Dict[str, int], c: Dict[str, int], w: int) -> R:
+    nb, opt = c['nb'], c['rem_opt']
+    if v['b'] == 0:
+        return {}, 'div0'
+    if opt not in (0, 1, 2):
+        return {}, 'div0'
+    a, b = signed(v['a'], n), signed(v['b'], nb)
+    if opt == 0:                      # sign(r) == sign(b)
+        q = a // b
+        r = a - q * b
+    elif opt == 1:                    # sign(r) == sign(a)
+        q = abs(a) // abs(b)
+        if (a < 0) != (b < 0):
+            q = -q
+        r = a - q * b
+    else:                             # r is always positive
+        r = a % abs(b)
+        q = (a - r) // b
+    assert a == q * b + r and abs(r) < abs(b)
+    if not -(1 << (4 * n - 1)) <= q < (1 << (4 * n - 1)):
+        return None                   # the quotient does not fit hex[:n] (most-negative / -1): the documentation is silent
+    return up(q=q & H(n), r=r & H(nb))
+
+
+def bits4(prefix: str) -> List[O]:
+    return [O(f'{prefix}{i}', 'bitaddr', 'rw', '1') for i in (3, 2, 1, 0)]
+
+
+def exact_xor_bits(n: int, v: Dict[str, int], c: Dict[str, int], w: int) -> R:
+    return {f'd{i}': v[f'd{i}'] ^ ((v['src'] >> i) & 1) for i in range(4)}, None
+
+
+def S(macro: str, operands: List[O], model: Any, doc: str, **kw: Any) -> Spec:
+    kw.setdefault('n_values', (1, 2, 3, 4, 6))
+    return Spec(macro, operands, model, f'hex/{doc}', needs='hex', widths=(32, 64), **kw)
+
+
+def N() -> O:
+    return O('n', 'n')
+
+
+def hid(name: str, role: str, bits: int, target: str) -> O:
+    return O(name, 'hidden', role, str(bits), target=target)
+
+
+SCALAR = {'n_values': [0]}
+LT_EQ_GT = [O('lt', 'label'), O('eq', 'label'), O('gt', 'label')]
 
 SPECS: List[Spec] = [
-    Spec('hex.zero', [O('x', 'hex', 'w', '1')], lambda n, v, c, w: ({'x': 0}, None), 'hex/memory.fj', n_values=[0], needs='hex',
-         widths=(32, 64)),
+    # ---------------------------------------------------------------- hex/memory.fj
+    S('hex.zero', [O('hex', 'hex', 'w', '1')], lambda n, v, c, w: up(hex=0), 'memory.fj:36', **SCALAR),
+    S('hex.zero', [N(), O('x', 'hex', 'w')], lambda n, v, c, w: up(x=0), 'memory.fj:43'),
+    S('hex.mov', [O('dst', 'hex', 'w', '1'), O('src', 'hex', 'r', '1')], lambda n, v, c, w: up(dst=v['src']), 'memory.fj:50', **SCALAR),
+    # "Unsafe if dst and src overlap! but safe if they are the exact same address."
+    S('hex.mov', [N(), O('dst', 'hex', 'w'), O('src', 'hex', 'r')], lambda n, v, c, w: up(dst=v['src']), 'memory.fj:63',
+      alias_ok=[('dst', 'src')]),
+    S('hex.xor_by', [O('hex', 'hex', 'rw', '1'), O('val', 'const', values=digit)], lambda n, v, c, w: up(hex=v['hex'] ^ c['val']),
+      'memory.fj:72', **SCALAR),
+    S('hex.xor_by', [N(), O('hex', 'hex', 'rw'), O('val', 'const', values=vec_const)],
+      lambda n, v, c, w: up(hex=(v['hex'] ^ c['val']) & H(n)), 'memory.fj:78'),
+    S('hex.set', [O('hex', 'hex', 'w', '1'), O('val', 'const', values=digit)], lambda n, v, c, w: up(hex=c['val']), 'memory.fj:85', **SCALAR),
+    S('hex.set', [N(), O('hex', 'hex', 'w'), O('val', 'const', values=vec_const)], lambda n, v, c, w: up(hex=c['val'] & H(n)),
+      'memory.fj:93'),
+    S('hex.swap', [O('hex1', 'hex', 'rw', '1'), O('hex2', 'hex', 'rw', '1')], lambda n, v, c, w: up(hex1=v['hex2'], hex2=v['hex1']),
+      'memory.fj:100', **SCALAR),
+    S('hex.swap', [N(), O('hex1', 'hex', 'rw'), O('hex2', 'hex', 'rw')], lambda n, v, c, w: up(hex1=v['hex2'], hex2=v['hex1']),
+      'memory.fj:114', alias_ok=[('hex1', 'hex2')]),
+    # ---------------------------------------------------------------- hex/logics.fj
+    S('hex.xor', [O('dst', 'hex', 'rw', '1'), O('src', 'hex', 'r', '1')], lambda n, v, c, w: up(dst=v['dst'] ^ v['src']), 'logics.fj:8',
+      **SCALAR),
+    S('hex.xor', [N(), O('dst', 'hex', 'rw'), O('src', 'hex', 'r')], lambda n, v, c, w: up(dst=v['dst'] ^ v['src']), 'logics.fj:17'),
+    # {d3,d2,d1,d0} ^= src : once with the four bit-addresses of one hex variable, once with four separate bit variables
+    S('hex.exact_xor', [O('d', 'hexbits', 'rw', '1'), O('src', 'hex', 'r', '1')], lambda n, v, c, w: up(d=v['d'] ^ v['src']),
+      'logics.fj:25', **SCALAR),
+    S('hex.exact_xor', bits4('d') + [O('src', 'hex', 'r', '1')], exact_xor_bits, 'logics.fj:25', **SCALAR),
+    S('hex.xor_zero', [O('dst', 'hex', 'rw', '1'), O('src', 'hex', 'rw', '1')], lambda n, v, c, w: up(dst=v['dst'] ^ v['src'], src=0),
+      'logics.fj:54', **SCALAR),
+    S('hex.xor_zero', [N(), O('dst', 'hex', 'rw'), O('src', 'hex', 'rw')], lambda n, v, c, w: up(dst=v['dst'] ^ v['src'], src=0),
+      'logics.fj:64'),
+    S('hex.double_xor', [O('dst1', 'hex', 'rw', '1'), O('dst2', 'hex', 'rw', '1'), O('src', 'hex', 'r', '1')],
+      lambda n, v, c, w: up(dst1=v['dst1'] ^ v['src'], dst2=v['dst2'] ^ v['src']), 'logics.fj:72', **SCALAR),
+    S('hex.address_and_variable_xor', [N(), O('address', 'fieldaddr', 'rw', '4*n'), O('var', 'hex', 'rw'), O('src', 'hex', 'r')],
+      lambda n, v, c, w: up(address=v['address'] ^ v['src'], var=v['var'] ^ v['src']), 'logics.fj:85', n_values=(1, 2, 3, 4)),
+    S('hex.double_exact_xor', [O('t', 'hexbits', 'rw', '1'), O('d', 'hexbits', 'rw', '1'), O('src', 'hex', 'r', '1')],
+      lambda n, v, c, w: up(t=v['t'] ^ v['src'], d=v['d'] ^ v['src']), 'logics.fj:97', **SCALAR),
+    S('hex.address_and_variable_double_xor',
+      [N(), O('address1', 'fieldaddr', 'rw', '4*n'), O('var1', 'hex', 'rw'), O('address2', 'fieldaddr', 'rw', '4*n'), O('var2', 'hex', 'rw'),
+       O('src', 'hex', 'r')],
+      lambda n, v, c, w: up(address1=v['address1'] ^ v['src'], var1=v['var1'] ^ v['src'], address2=v['address2'] ^ v['src'],
+                            var2=v['var2'] ^ v['src']), 'logics.fj:144', n_values=(1, 2, 3, 4)),
+    S('hex.quadrupled_exact_xor',
+      [O('r', 'hexbits', 'rw', '1'), O('q', 'hexbits', 'rw', '1'), O('t', 'hexbits', 'rw', '1'), O('d', 'hexbits', 'rw', '1'),
+       O('src', 'hex', 'r', '1')],
+      lambda n, v, c, w: up(r=v['r'] ^ v['src'], q=v['q'] ^ v['src'], t=v['t'] ^ v['src'], d=v['d'] ^ v['src']), 'logics.fj:160', **SCALAR),
+    S('hex.not', [O('hex', 'hex', 'rw', '1')], lambda n, v, c, w: up(hex=15 - v['hex']), 'logics.fj:247', **SCALAR),
+    S('hex.not', [N(), O('x', 'hex', 'rw')], lambda n, v, c, w: up(x=v['x'] ^ H(n)), 'logics.fj:256'),
+    S('hex.or', [O('dst', 'hex', 'rw', '1'), O('src', 'hex', 'r', '1')], lambda n, v, c, w: up(dst=v['dst'] | v['src']), 'logics.fj:264',
+      **SCALAR),
+    S('hex.or', [N(), O('dst', 'hex', 'rw'), O('src', 'hex', 'r')], lambda n, v, c, w: up(dst=v['dst'] | v['src']), 'logics.fj:274'),
+    S('hex.and', [O('dst', 'hex', 'rw', '1'), O('src', 'hex', 'r', '1')], lambda n, v, c, w: up(dst=v['dst'] & v['src']), 'logics.fj:314',
+      **SCALAR),
+    S('hex.and', [N(), O('dst', 'hex', 'rw'), O('src', 'hex', 'r')], lambda n, v, c, w: up(dst=v['dst'] & v['src']), 'logics.fj:324'),
+    # ---------------------------------------------------------------- hex/math_basic.fj
+    # "@Assumes: dst and src do not alias."
+    S('hex.add_count_bits', [N(), O('dst', 'hex', 'rw'), O('src', 'hex', 'r', '1')],
+      lambda n, v, c, w: up(dst=(v['dst'] + popcount(v['src'])) & H(n)), 'math_basic.fj:8', n_values=(1, 2, 3, 4)),
+    S('hex.count_bits', [N(), O('dst', 'hex', 'w', SMALL_N), O('x', 'hex', 'r')], lambda n, v, c, w: up(dst=popcount(v['x'])),
+      'math_basic.fj:79', n_values=(1, 2, 3, 4, 5, 8)),
+    S('hex.inc1', [O('hex', 'hex', 'rw', '1'), O('carry0', 'label'), O('carry1', 'label')],
+      lambda n, v, c, w: ({'hex': (v['hex'] + 1) & 15}, 'carry1' if v['hex'] == 15 else 'carry0'), 'math_basic.fj:98', falls_through=False,
+      **SCALAR),
+    S('hex.inc', [N(), O('hex', 'hex', 'rw')], lambda n, v, c, w: up(hex=(v['hex'] + 1) & H(n)), 'math_basic.fj:129'),
+    S('hex.dec1', [O('hex', 'hex', 'rw', '1'), O('borrow0', 'label'), O('borrow1', 'label')],
+      lambda n, v, c, w: ({'hex': (v['hex'] - 1) & 15}, 'borrow1' if v['hex'] == 0 else 'borrow0'), 'math_basic.fj:144',
+      falls_through=False, **SCALAR),
+    S('hex.dec', [N(), O('hex', 'hex', 'rw')], lambda n, v, c, w: up(hex=(v['hex'] - 1) & H(n)), 'math_basic.fj:176'),
+    S('hex.neg', [N(), O('x', 'hex', 'rw')], lambda n, v, c, w: up(x=(-v['x']) & H(n)), 'math_basic.fj:191'),
+    # "(two's complement; the minimal value -2^(4n-1) stays itself)"
+    S('hex.abs', [N(), O('x', 'hex', 'rw')], lambda n, v, c, w: up(x=abs(signed(v['x'], n)) & H(n)), 'math_basic.fj:200'),
+    S('hex.sign_extend', [N(), O('signed_n', 'const', values=one_to_n), O('hex', 'hex', 'rw')], sign_extend, 'math_basic.fj:211'),
+    # ---------------------------------------------------------------- hex/math.fj
+    # "Relies on the add-carry, and updates it at the end."  (carry: math_basic.fj:92)
+    S('hex.add', [O('dst', 'hex', 'rw', '1'), O('src', 'hex', 'r', '1'), hid('carry', 'rw', 1, 'add_carry')], add_scalar, 'math.fj:7',
+      **SCALAR),
+    S('hex.add', [N(), O('dst', 'hex', 'rw'), O('src', 'hex', 'r')], lambda n, v, c, w: up(dst=(v['dst'] + v['src']) & H(n)), 'math.fj:18'),
+    S('hex.add_shifted', [N(), O('src_n', 'const', values=src_n_le_n), O('dst', 'hex', 'rw'), O('src', 'hex', 'r', 'src_n'),
+                          O('hex_shift', 'const', values=shift_fitting('src_n'))],
+      lambda n, v, c, w: up(dst=(v['dst'] + (v['src'] << (4 * c['hex_shift']))) & H(n)), 'math.fj:28'),
+    # "const must be a positive constant."
+    S('hex.add_constant', [N(), O('dst', 'hex', 'rw'), O('const', 'const', values=positive_below_16n)],
+      lambda n, v, c, w: up(dst=(v['dst'] + c['const']) & H(n)), 'math.fj:41', pre=lambda n, c, w: 0 < c['const'] < 16 ** n),
+    # "const is a constant of size hex[:n_const]"
+    S('hex.add.add_hex_shifted_constant',
+      [N(), O('n_const', 'const', values=one_to_n), O('dst', 'hex', 'rw'), O('const', 'const', values=const_of_n_const),
+       O('hex_shift', 'const', values=shift_fitting('n_const'))],
+      lambda n, v, c, w: up(dst=(v['dst'] + (c['const'] << (4 * c['hex_shift']))) & H(n)), 'math.fj:58',
+      pre=lambda n, c, w: 0 <= c['const'] < 16 ** c['n_const']),
+    S('hex.add.clear_carry', [hid('carry', 'rw', 1, 'add_carry')], lambda n, v, c, w: up(carry=0), 'math.fj:73', **SCALAR),
+    S('hex.add.clear_carry', [O('c0', 'label'), O('c1', 'label'), hid('carry', 'rw', 1, 'add_carry')],
+      lambda n, v, c, w: ({'carry': 0}, 'c0' if v['carry'] == 0 else 'c1'), 'math.fj:84', falls_through=False, **SCALAR),
+    S('hex.add.not_carry', [hid('carry', 'rw', 1, 'add_carry')], lambda n, v, c, w: up(carry=v['carry'] ^ 1), 'math.fj:96', **SCALAR),
+    S('hex.add.set_carry', [hid('carry', 'rw', 1, 'add_carry')], lambda n, v, c, w: up(carry=1), 'math.fj:104', **SCALAR),
+    S('hex.sub', [O('dst', 'hex', 'rw', '1'), O('src', 'hex', 'r', '1'), hid('carry', 'rw', 1, 'sub_carry')], sub_scalar, 'math.fj:153',
+      **SCALAR),
+    S('hex.sub', [N(), O('dst', 'hex', 'rw'), O('src', 'hex', 'r')], lambda n, v, c, w: up(dst=(v['dst'] - v['src']) & H(n)), 'math.fj:163'),
+    S('hex.sub_shifted', [N(), O('src_n', 'const', values=src_n_le_n), O('dst', 'hex', 'rw'), O('src', 'hex', 'r', 'src_n'),
+                          O('hex_shift', 'const', values=shift_fitting('src_n'))],
+      lambda n, v, c, w: up(dst=(v['dst'] - (v['src'] << (4 * c['hex_shift']))) & H(n)), 'math.fj:173'),
+    S('hex.sub_constant', [N(), O('dst', 'hex', 'rw'), O('const', 'const', values=positive_below_16n)],
+      lambda n, v, c, w: up(dst=(v['dst'] - c['const']) & H(n)), 'math.fj:186', pre=lambda n, c, w: 0 < c['const'] < 16 ** n),
+    S('hex.sub.sub_hex_shifted_constant',
+      [N(), O('n_const', 'const', values=one_to_n), O('dst', 'hex', 'rw'), O('const', 'const', values=const_of_n_const),
+       O('hex_shift', 'const', values=shift_fitting('n_const'))],
+      lambda n, v, c, w: up(dst=(v['dst'] - (c['const'] << (4 * c['hex_shift']))) & H(n)), 'math.fj:201',
+      pre=lambda n, c, w: 0 <= c['const'] < 16 ** c['n_const']),
+    S('hex.sub.clear_carry', [hid('carry', 'rw', 1, 'sub_carry')], lambda n, v, c, w: up(carry=0), 'math.fj:216', **SCALAR),
+    S('hex.sub.clear_carry', [O('c0', 'label'), O('c1', 'label'), hid('carry', 'rw', 1, 'sub_carry')],
+      lambda n, v, c, w: ({'carry': 0}, 'c0' if v['carry'] == 0 else 'c1'), 'math.fj:225', falls_through=False, **SCALAR),
+    S('hex.sub.not_carry', [hid('carry', 'rw', 1, 'sub_carry')], lambda n, v, c, w: up(carry=v['carry'] ^ 1), 'math.fj:238', **SCALAR),
+    S('hex.sub.set_carry', [hid('carry', 'rw', 1, 'sub_carry')], lambda n, v, c, w: up(carry=1), 'math.fj:246', **SCALAR),
+    # ---------------------------------------------------------------- hex/shifts.fj
+    S('hex.shl_bit', [N(), O('dst', 'hex', 'rw')], lambda n, v, c, w: up(dst=(v['dst'] << 1) & H(n)), 'shifts.fj:7'),
+    S('hex.shr_bit', [N(), O('dst', 'hex', 'rw')], lambda n, v, c, w: up(dst=v['dst'] >> 1), 'shifts.fj:16'),
+    S('hex.shl_hex', [N(), O('dst', 'hex', 'rw')], lambda n, v, c, w: up(dst=(v['dst'] << 4) & H(n)), 'shifts.fj:25'),
+    # "@Assumes: times <= n"
+    S('hex.shl_hex', [N(), O('times', 'const', values=times_le_n), O('dst', 'hex', 'rw')],
+      lambda n, v, c, w: up(dst=(v['dst'] << (4 * c['times'])) & H(n)), 'shifts.fj:32', pre=lambda n, c, w: 0 <= c['times'] <= n),
+    S('hex.shr_hex', [N(), O('dst', 'hex', 'rw')], lambda n, v, c, w: up(dst=v['dst'] >> 4), 'shifts.fj:44'),
+    S('hex.shr_hex', [N(), O('times', 'const', values=times_le_n), O('dst', 'hex', 'rw')],
+      lambda n, v, c, w: up(dst=v['dst'] >> (4 * c['times'])), 'shifts.fj:51', pre=lambda n, c, w: 0 <= c['times'] <= n),
+    # ---------------------------------------------------------------- hex/cond_jumps.fj
+    # "flags (constant): 16 bit constant; bit i indicates whether to jump to l0/l1 when hex=i."
+    S('hex.if_flags', [O('hex', 'hex', 'r', '1'), O('flags', 'const', values=flags16), O('l0', 'label'), O('l1', 'label')],
+      lambda n, v, c, w: ({}, 'l1' if c['flags'] & (1 << v['hex']) else 'l0'), 'cond_jumps.fj:7', falls_through=False, **SCALAR),
+    S('hex.if', [O('hex', 'hex', 'r', '1'), O('l0', 'label'), O('l1', 'label')], lambda n, v, c, w: ({}, 'l0' if v['hex'] == 0 else 'l1'),
+      'cond_jumps.fj:30', falls_through=False, **SCALAR),
+    S('hex.if0', [O('hex', 'hex', 'r', '1'), O('l0', 'label')], lambda n, v, c, w: ({}, 'l0' if v['hex'] == 0 else None),
+      'cond_jumps.fj:34', **SCALAR),
+    S('hex.if1', [O('hex', 'hex', 'r', '1'), O('l1', 'label')], lambda n, v, c, w: ({}, 'l1' if v['hex'] != 0 else None),
+      'cond_jumps.fj:39', **SCALAR),
+    S('hex.if', [N(), O('hex', 'hex', 'r'), O('l0', 'label'), O('l1', 'label')], lambda n, v, c, w: ({}, 'l0' if v['hex'] == 0 else 'l1'),
+      'cond_jumps.fj:47', falls_through=False),
+    S('hex.if0', [N(), O('hex', 'hex', 'r'), O('l0', 'label')], lambda n, v, c, w: ({}, 'l0' if v['hex'] == 0 else None),
+      'cond_jumps.fj:52'),
+    S('hex.if1', [N(), O('hex', 'hex', 'r'), O('l1', 'label')], lambda n, v, c, w: ({}, 'l1' if v['hex'] != 0 else None),
+      'cond_jumps.fj:57'),
+    S('hex.sign', [N(), O('number', 'hex', 'r'), O('neg', 'label'), O('zpos', 'label')],
+      lambda n, v, c, w: ({}, 'neg' if signed(v['number'], n) < 0 else 'zpos'), 'cond_jumps.fj:66', falls_through=False),
+    S('hex.cmp', [O('a', 'hex', 'r', '1'), O('b', 'hex', 'r', '1')] + LT_EQ_GT, lambda n, v, c, w: ({}, cmp3(v['a'], v['b'])),
+      'cond_jumps.fj:74', falls_through=False, **SCALAR),
+    S('hex.cmp', [N(), O('a', 'hex', 'r'), O('b', 'hex', 'r')] + LT_EQ_GT, lambda n, v, c, w: ({}, cmp3(v['a'], v['b'])),
+      'cond_jumps.fj:113', falls_through=False),
+    # "(unsigned)  @Assumes dst is distinct from a and b"
+    S('hex.min', [N(), O('dst', 'hex', 'w'), O('a', 'hex', 'r'), O('b', 'hex', 'r')], lambda n, v, c, w: up(dst=min(v['a'], v['b'])),
+      'cond_jumps.fj:165'),
+    S('hex.max', [N(), O('dst', 'hex', 'w'), O('a', 'hex', 'r'), O('b', 'hex', 'r')], lambda n, v, c, w: up(dst=max(v['a'], v['b'])),
+      'cond_jumps.fj:181'),
+    # "SIGNED (two's complement): jumps to lt if a<b, eq if a==b, gt if a>b ... NOT modified ... correct over the whole range"
+    S('hex.scmp', [N(), O('a', 'hex', 'r'), O('b', 'hex', 'r')] + LT_EQ_GT, lambda n, v, c, w: ({}, cmp3(signed(v['a'], n), signed(v['b'], n))),
+      'cond_jumps.fj:203', falls_through=False),
+    # ---------------------------------------------------------------- hex/mul.fj
+    # ".mul.add_carry_dst : res  +=  x * .mul.dst + .mul.add_carry_dst"   (all hex)
+    S('hex.add_mul', [O('res', 'hex', 'rw', '1'), O('x', 'hex', 'r', '1'), hid('mul_dst', 'r', 4, 'mul_dst'),
+                      hid('mul_carry', 'rw', 4, 'mul_carry')], add_mul_scalar, 'mul.fj:4', **SCALAR),
+    # "res[n] += a[n] * b[1]"
+    S('hex.add_mul', [N(), O('res', 'hex', 'rw'), O('a', 'hex', 'r'), O('b', 'hex', 'r', '1')],
+      lambda n, v, c, w: up(res=(v['res'] + v['a'] * v['b']) & H(n)), 'mul.fj:20', n_values=(1, 2, 3, 4, 6)),
+    S('hex.mul10', [N(), O('x', 'hex', 'rw')], lambda n, v, c, w: up(x=(v['x'] * 10) & H(n)), 'mul.fj:33'),
+    S('hex.mul', [N(), O('res', 'hex', 'w'), O('a', 'hex', 'r'), O('b', 'hex', 'r')], lambda n, v, c, w: up(res=(v['a'] * v['b']) & H(n)),
+      'mul.fj:49', n_values=(1, 2, 3, 4)),
+    # ---------------------------------------------------------------- hex/div.fj
+    # "q,a are hex[:n], while r,b are hex[:nb]. div0 is the bit-address this function will jump to in-case b is zero."
+    S('hex.div', [N(), O('nb', 'const', values=nb_near_n), O('q', 'hex', 'w'), O('r', 'hex', 'w', 'nb'), O('a', 'hex', 'r'),
+                  O('b', 'hex', 'r', 'nb'), O('div0', 'label')], div_model, 'div.fj:4', n_values=(1, 2, 3, 4)),
+    S('hex.idiv', [N(), O('nb', 'const', values=nb_near_n), O('q', 'hex', 'w'), O('r', 'hex', 'w', 'nb'), O('a', 'hex', 'r'),
+                   O('b', 'hex', 'r', 'nb'), O('div0', 'label'), O('rem_opt', 'const', values=rem_opt_values)], idiv_model, 'div.fj:74',
+      n_values=(1, 2, 3, 4)),
 ]
